@@ -22,7 +22,7 @@ class C14(Check):
     RULE = ('three streams: (1) mostly-valid specification texts from the renderer (all spellings, intervals with units / constants / begin > end / undeclared '
             'bound constants, undeclared identifiers, several assertions; bounds replaced by identifiers naming a constant, a signal, the specification itself or nothing); (2) token soup: valid texts with tokens deleted, duplicated, swapped, inserted, '
             'truncated, and random token sequences; (3) declarations (const / variable declarations with every literal form, judged by outcome class only: never an exception other than RTAMTException); (4) character pollution: illegal characters, hex/binary literals, unterminated comments, comments and Unicode white space after the last token, empty text; (5) hostile texts and configurations judged by outcome class only (long flat formulas of 150-1200 operands, absurd bounds, identifiers ending in a dot, imported types that are not classes, default units and constant values set through the API: unknown units, hex / non-numeric / negative / float / non-string values); '
-            'each parse under a wall-clock limit; outcome class (ok / RTAMTException / other exception / timeout) and, when accepted, the AST are compared with '
+            '(6) whole specification texts (header, imports from the modules of harness/pdmods, typed input / output variable declarations with initialisers, constant declarations, topic annotations, assertions) and token-level mutations of them: outcome class, specification name, modules, variables, type / io / constant / topic tables, free variables, output variable and every AST against the model ParserDecl.file_outcome; each parse under a wall-clock limit; outcome class (ok / RTAMTException / other exception / timeout) and, when accepted, the AST are compared with '
             'the model lexer+parser+visitor checks (Lexer.v, Parser.v, Elab.v); non-trivial = text with >= 5 tokens; distinct by text')
 
     def gen_cases(self, rng, tier):
@@ -148,14 +148,34 @@ class C14(Check):
             else:
                 t = t[:pos] + ' // c\n' + t[pos:]
             cases.append({'text': t, 'stream': 'pollution'})
+        # whole specification texts: header, imports, variable / constant declarations, annotations, assertions, and mutations of them
+        # (generator of harness/declgen.py); outcome class, every table the visitors fill and every AST against ParserDecl.file_outcome
+        from harness import declgen
+        for t in declgen.FIXED:
+            cases.append({'text': t, 'stream': 'file'})
+        for _ in range(nvalid):
+            g = declgen.Gen(rng)
+            segs = g.spec()
+            cases.append({'text': declgen.render(rng, segs), 'stream': 'file'})
+            for _ in range(2):
+                k, t = declgen.mutate(rng, segs)
+                cases.append({'text': t, 'stream': 'file'})
+        cases = [c for c in cases if '\x00' not in c['text']]
         return cases
 
     def model_lines(self, c):
+        if c['stream'] == 'file':
+            from harness import declgen
+            if declgen.out_of_fragment(c['text']):
+                return ['(parsefile %s)' % hexs('out = xa')]
+            return ['(parsefile %s)' % hexs(c['text'])]
         if self.out_of_fragment(c):
             return ['(parse stl s ((k1 2)) %s)' % hexs('out = xa;')]      # judged by outcome class only: the model is not asked
         return ['(parse stl s ((k1 2) (kn -1)) %s)' % hexs(c['text'])]
 
     def impl_cases(self, c):
+        if c['stream'] == 'file':
+            return [{'monitor': 'discrete-offline', 'vars': [], 'spec': c['text'], 'calls': [['tables']]}]
         case = {'monitor': 'discrete-offline', 'vars': ['xa', 'xb', 'xc'], 'consts': [['k1', 'float', '2'], ['kn', 'float', '-1']] + c.get('consts', []), 'spec': c['text'], 'calls': [['ast']]}
         if 'unit' in c:
             case['unit'] = c['unit']
@@ -169,7 +189,44 @@ class C14(Check):
         return bool(words & set(OUT_OF_FRAGMENT)) or bool(re.search(r'0[xXbB][0-9a-fA-F]', c['text'])) or bool(re.search(r'(?<![0-9.])0[0-9]', c['text'])) or '_' in re.sub(r'[A-Za-z_$][A-Za-z0-9_$./]*', '', c['text']) \
             or bool(re.search(r'[A-Za-z_$][A-Za-z0-9_$./]*\.[A-Za-z]', c['text']))
 
+    def judge_file(self, c, mlines, ires):
+        from harness import declgen
+        ml = mlines[0]
+        i = ires[0]
+        st = i['setup']
+        det = {'text': c['text'], 'stream': 'file'}
+        if not ml.startswith('FILE '):
+            return 'model-error', ml
+        kind = 'CRASH' if st['status'] == 'crash' else ('RTAMT' if st['status'] == 'rtamt' else 'OK')
+        if declgen.out_of_fragment(c['text']):
+            return 'dropped', None
+        mk, mv = declgen.parse_model(ml[5:])
+        if kind != mk:
+            if kind == 'CRASH' and mk != 'CRASH':
+                return 'violation', dict(det, expected='parse() returns or raises RTAMTException', observed=st)
+            return 'violation', dict(det, expected={'source': 'ParserDecl.file_outcome', 'outcome': mk}, observed=st if kind != 'OK' else 'accepted')
+        if kind == 'CRASH':
+            return 'ok', None        # an import / a constructor that escapes the except clauses, as the oracle says (not benign: see C14_file_clean)
+        if kind == 'OK':
+            a = i['calls'][0]
+            if a['status'] != 'ok':
+                return 'violation', dict(det, expected='tables available after a successful parse()', observed=a)
+            v = a['value']
+            got = {'name': v['name'], 'mods': [tuple(x) for x in v['mods']], 'vars': v['vars'], 'types': [tuple(x) for x in v['types']], 'io': [tuple(x) for x in v['io']],
+                   'consts': [tuple(x) for x in v['consts']], 'topics': [tuple(x) for x in v['topics']], 'free': v['free'], 'out': (v['out'][0], v['out'][1]),
+                   'asts': [declgen.canon_dump(x, False) for x in v['asts']]}
+            mv = dict(mv)
+            mv['io'] = [x for x in mv['io']]
+            for k in ('name', 'mods', 'vars', 'types', 'consts', 'topics', 'free', 'out', 'asts'):
+                if got[k] != mv[k]:
+                    return 'violation', dict(det, table=k, expected={'source': 'ParserDecl.elab_file', k: mv[k]}, observed={k: got[k]})
+            if dict(got['io']) != dict(mv['io']) and {k_: v_ for k_, v_ in got['io'] if k_ in dict(mv['io'])} != dict(mv['io']):
+                return 'violation', dict(det, table='io', expected={'source': 'ParserDecl.elab_file', 'io': mv['io']}, observed={'io': got['io']})
+        return 'ok', None
+
     def judge(self, c, mlines, ires):
+        if c['stream'] == 'file':
+            return self.judge_file(c, mlines, ires)
         ml = mlines[0]
         i = ires[0]
         det = {'text': c['text'], 'stream': c['stream'], 'model': ml[:300]}
